@@ -9,6 +9,8 @@ d[i][c]); everything must equal the printed expectation, aliasing included.
 The session holds the caller's own argument objects too (one Python object per name, handed to every call that names it, edited in
 place by the caller between calls); every ordered pair of calls sharing such objects is generated (Dictable_genshared*.cfg) and all
 objects are compared with what TLC says the caller left them as (argument_changed).
+Round 5: every list of 3 - 5 operands (two tables, two records) in ONE concat call (Dictable_gennary*.cfg); recorded histories on BIG tables
+(small patterns of mixed cell kinds scaled to 17 - 1025 rows), wide tables, concat calls with 17 - 257 operands and sessions of up to 1030 calls.
 C2S: random recorded histories (general slices, masks, values, += / -= forms, per-column transforms with lists of
 functions that take further columns) validated step by step by spec/Trace_Dictable.tla."""
 import json
@@ -599,7 +601,7 @@ def record(ctx, events_or_gen, nrandom=0, cap=None):
 
 def big_histories(ctx):
     """(i) scaled patterns: sizes around the thresholds a change could hide behind; (ii) one call with 17 / 65 / 130 operands;
-    (iii) long histories: 70 / 130 / 260 calls in one session on small tables"""
+    (iii) tables of 17 / 65 / 130 columns; (iv) long histories: 70 / 130 / 260 calls in one session on small tables"""
     rng = ctx.rng
     sizes = [(17, 5), (65, 5), (66, 2), (101, 2), (130, 3), (257, 2), (260, 1)] if ctx.quick else [(17, 10), (64, 5), (65, 10), (101, 10), (130, 10), (257, 10), (260, 5), (1025, 3)]
     obs = []
@@ -618,6 +620,21 @@ def big_histories(ctx):
               {'op': 'ConcatN', 'ops': [unit[i % len(unit)] for i in range(nops)], 'rd': 'r3'},
               {'op': 'ConcatN', 'ops': [['r', 'r2', []]] * nops, 'rd': 'r3'}]
         obs.append(record(ctx, ev)); ctx.note(('operands', nops))
+    for w in ([17, 65, 130] if ctx.quick else [17, 65, 130, 257, 1025]):          # number of columns (keys of the table, members of the lists of names)
+        hdrs = ['c%i' % j for j in range(w)]
+        vals = [I1, SX, F52, NONE, D1, SYY, I2]
+        wide = {'kind': 'rows', 'hdrs': hdrs, 'rows': [[vals[(i * 3 + j) % 7] for j in range(w)] for i in range(3)]}
+        ev = [{'op': 'Bind', 'av': NO_ARGS}, {'op': 'New', 'rd': 'r1', 'seed': wide},
+              {'op': 'Project', 'r': 'r1', 'rd': 'r2', 'cs': hdrs[w // 2::-1]},
+              {'op': 'MaskCyc', 'r': 'r1', 'rd': 'r3', 'pat': [True, False]},
+              {'op': 'ConcatN', 'ops': [['r', 'r2', []], ['r', 'r1', []], ['rec', '', [[hdrs[-1], SX], ['a', I1]]], ['r', 'r2', []]], 'rd': 'r3'},
+              {'op': 'Minus', 'r': 'r1', 'rd': 'r2', 'cs': hdrs[::3]},
+              {'op': 'Rename', 'r': 'r1', 'rd': 'r2', 'c': hdrs[-2], 'c2': 'z'},
+              {'op': 'DelCol', 'r': 'r1', 'c': hdrs[1]},
+              {'op': 'SetColCyc', 'r': 'r1', 'c': hdrs[-1], 'pat': [I2, SYY]},
+              {'op': 'Do', 'r': 'r1', 'rd': 'r2', 'fs': ['none0'], 'cs': hdrs[2:w // 2]},
+              {'op': 'Slice', 'r': 'r1', 'rd': 'r3', 'lo': [0, 0], 'hi': [0, 0], 'step': -1}]
+        obs.append(record(ctx, ev)); ctx.note(('columns', w))
     for ncalls in ([70, 130, 260] if ctx.quick else [70, 130, 260, 260, 520, 1030]):          # calls in one session
         obs.append(record(ctx, [{'op': 'Bind', 'av': rand_world(rng)}], nrandom=ncalls, cap=40)); ctx.note(('calls', ncalls))
     return obs
@@ -647,7 +664,8 @@ def judge(ctx, obs, per_run):
     ctx.evals += sum(len(o['events']) for o in obs)
     bad = []
     for k in range(0, len(obs), per_run):
-        bad += [(line + k, clause) for line, clause in ctx.validate('Trace_Dictable', obs[k:k + per_run])]
+        # (the trace specification threads the state through a recursive Run: a history of 260 calls needs a deeper Java stack than the default)
+        bad += [(line + k, clause) for line, clause in ctx.validate('Trace_Dictable', obs[k:k + per_run], env={'JAVA_TOOL_OPTIONS': '-Xss512m'})]
     for line, clause in bad:
         ev = obs[line - 1]['events']
         k = int(clause.split(':')[0][4:])
@@ -665,7 +683,14 @@ def run(ctx):
                 'one Python object per name is handed to every call that names it (dictable(m, c = ..), dictable(d, c = ..), d.update(m), d(**m), '
                 'd.relabel(rn, b = ..), d[cs], d - cs, d.do(f, cs), d + recs, d[c] = L, dictable(a = L, b = L) ...), the caller edits them in place between '
                 'calls, every ordered pair of such calls on the same objects is generated, and after the history every object must equal what the '
-                'specification says the caller left it as (clause argument_changed). Non-trivial = at least two different operations.')
+                'specification says the caller left it as (clause argument_changed). THREE OR MORE operands in one call: two tables, then one concat over every '
+                'list of 3 - 5 operands drawn from the two tables and two records (a column present, absent, present again; the same table twice; a record '
+                'first), spelled concat(*xs), concat(list), sum(xs), x1 + x2 + ..., x1.concat(*xs); the specification says the n-ary call is the chained '
+                'binary one (ConcatNLaw). SIZE: recorded histories on tables of 17 - 260 rows (thorough: 1025) that are small row patterns with columns of '
+                'mixed cell kinds scaled up (BigT), pushed through masks, slices, position lists, filters without condition, n-ary concat, += and cycled '
+                'column assignment, on tables of 17 - 130 columns, on concat calls with 17 / 65 operands and on sessions of 70 - 260 calls - judged by the '
+                'same trace specification; ScaleLaws (checked by TLC on the small tables) states that k copies of the rows give k copies of the outcome. '
+                'Non-trivial = at least two different operations.')
     ctx.mc('Dictable', 'Dictable_mc2.cfg' if ctx.quick else 'Dictable_mc3.cfg')
     snaps = ctx.generate('Dictable', 'Dictable_gen2.cfg')
     for s in snaps:
@@ -710,6 +735,8 @@ def run(ctx):
                         'd + None and dictable.concat(d) return their operand (named deviations AddNone / ConcatOne: aliases, not copies)',
                         'rename onto an existing column, masks of the wrong length and cell mutation through returned lists are outside the domain',
                         'argument objects: a list handed over as a column (d[c] = L, dictable(a = L), d(c = L)) may be kept by the table as the column itself, so the caller no longer edits L after that (flag lg); dicts, lists of records / names / positions are edited freely',
+                        'n-ary concat is rendered with positional operands or one list (a tuple of tables is not a documented form: concat((a, b, c)) is not called); record + table (a dict on the left of +) is not rendered',
+                        'big tables: every cell of a scaled pattern is the same Python object as in the pattern (the NaN identities of the pattern repeat); sizes 17 / 65 / 66 / 101 / 130 / 257 / 260 rows in the quick tier',
                         'dictable(m, **kw) / dictable(d, **kw) / d.relabel(rn, **kw) only with keyword names that the mapping / table does not have (which side wins is not pinned down); relabels only where no two columns end up under one name']
 
 
